@@ -82,13 +82,15 @@ def body_len(rsizes):
 def ring_keys(first, rsizes, scale, H):
     """first[i] = P_{i,0}; P_{i,j} = P_{i,0} - j * scale * 4^i * H  (flat list)"""
     pubs = []
+    step = ec.neg(ec.mul(scale, H))               # -scale * 4^i * H, quadrupled from ring to ring
     for i, rs in enumerate(rsizes):
-        step = ec.neg(ec.mul(scale * (4 ** i), H))
         cur = first[i]
         for j in range(rs):
             pubs.append(cur)
             if j != rs - 1:
                 cur = ec.add(cur, step)
+        step = ec.add(step, step)
+        step = ec.add(step, step)
     return pubs
 
 
